@@ -89,3 +89,8 @@ claim("C04",
       "Generated references (pooled/flat, with/without gc and rmask, bad bins on and beyond every threshold, superset of the sample) and sample target/antitarget tables (subset, empty antitargets, null bins, Picard gc column) are run through do_fix for every subset of corrections; emitted bins, genomic order, class-constant offset (corrections off), exact log2 against the model (tie-free covariates), centring, weight range and monotonicity in size and spread, invariance under row permutation of each input and under depth rescaling, and refusal of missing / duplicated coordinates are checked.",
       "Trusted: vk/models.py rolling median and median; the edge-density formula restated from its docstring; covariate ties skip the exact-value clause; weights of classes with exactly symmetric residuals are not compared across variants (float tie in biweight_midvariance).",
       "DESIGN.md 5/C04")
+claim("C05",
+      "property-based testing (Hypothesis): cohorts written to disk and re-parsed by an independent reference_model (centring, sex shift, pseudo-sample, biweight location/midvariance); planted-truth consequences; gc/rmask by character count",
+      "Generated cohorts of 1..8 coverage files (any sex mix, depth scales, noise, naming style, with/without/empty antitarget files, male/female reference, sexes given or inferred, shuffled file order) are pooled with corrections off and every bin's log2, spread and depth is compared with the restated estimator over the samples plus the flat pseudo-sample; depth-only cohorts must reproduce the centred profile with spread ~ 0 and X/Y must sit at -1/0 and -1; with corrections on the bins and the chromosome-level X/Y medians are checked; mismatching bins must be rejected; flat references give the 0/-1 pattern and gc/rmask equal the character counts of a generated FASTA.",
+      "Trusted: vk/models.py biweight restatements (ties accept either branch); the harness .cnn writer/parser; pyfaidx as FASTA reader underneath; sex inference itself is C15's subject.",
+      "DESIGN.md 5/C05")
